@@ -237,6 +237,9 @@ def run(ck):
     from . import c09
     ck.floor("ATOM/adler-stride:K1", c09.adler_kernels(ck, prog("K1"), "K1"), 2)
     c09.crc_start_flow(ck, prog("K1"))
+    # what a reset clears is what the reference clears
+    from .. import condparity as _cp
+    ck.floor("SIB/ref-conditions", _cp.check(ck, prog("K1"), "SIB/ref-conditions", only={"inflate.c:inflateResetKeep", "inflate.c:inflateReset", "deflate.c:deflateReset", "deflate.c:lm_init", "deflate.c:deflateResetKeep"}), 1)
     for cfg, floor in (("K1", 9), ("K3", 12), ("K3b", 14)):
         P = prog(cfg)
         ck.configs.add(cfg)
